@@ -35,6 +35,9 @@ OddAttrs == { [DefFw EXCEPT !.at = a, !.to = "NONE"] : a \in {"FEE", "UNREG", "N
                     [DefFw EXCEPT !.at = "CCTP", !.dom = 0, !.mint = "SHORT", !.to = "NONE"],
                     [DefFw EXCEPT !.at = "CCTP", !.dom = 0, !.mint = "MINT_A", !.caller = "LONG33", !.to = "NONE"],
                     [DefFw EXCEPT !.at = "INT", !.to = "ORB_UPPER"], [DefFw EXCEPT !.at = "INT", !.to = "OTHER_HRP"] }
+             \* the interchain gas paymaster as custom hook: gas limit x max fee x max fee denom
+             \cup { [DefFw EXCEPT !.at = "HYP", !.tok = "T1", !.dom = 1, !.rcp = "R_A", !.hook = "H_IGP", !.gas = g, !.maxfee = mf, !.mfd = d, !.to = "NONE"] :
+                      g \in {0, 3, 9}, mf \in {0, 5}, d \in {"uusdc", "ustake"} }
 Attrs == IF ReqSet = "full" THEN CctpAttrs \cup HypAttrs \cup IntAttrs \cup OddAttrs
          ELSE { a \in CctpAttrs : a.dom = 0 } \cup { a \in HypAttrs : a.dom = 1 /\ a.rcp = "R_A" /\ a.gas = 77 } \cup IntAttrs \cup OddAttrs
 ActSets == { <<>>, <<FeeAct(<<Bps(1000, "F1")>>)>> }
@@ -56,7 +59,7 @@ Replaces == { [AdminIn("ReplaceDepositForBurn", s) EXCEPT !.fw = FwCCTP(0, m, c)
 MCAlphabet == Grid \cup Replaces
 SmallAlphabet == MCAlphabet
 
-StepProps == [][ Prop_C05(last') /\ Prop_C01(last') /\ Prop_C02(last') /\ Prop_C04(last') /\ Prop_C10(last') /\ Prop_C12(last') ]_vars
+StepProps == [][ Prop_C05(last') /\ Prop_C01(last') /\ MC_C02(last') /\ Prop_C04(last') /\ Prop_C10(last') /\ Prop_C12(last') ]_vars
 Depth == TLCGet("level") <= MaxDepth
 View == st
 =============================================================================
